@@ -4779,6 +4779,19 @@ impl RelationalEngine {
             return Err(RelationalError::TableNotFound(table.to_string()));
         }
 
+        // An open transaction with uncommitted changes in this table still holds undo entries and
+        // row locks that name it. Dropping the table now would make that transaction's rollback
+        // fail, or - once a table of the same name has been created - apply the undo entries to
+        // the rows of the new table. Refuse, as a non-transactional update of a locked row does.
+        if let Some(blocking_tx) = self.tx_manager.open_transaction_on_table(table) {
+            return Err(RelationalError::LockConflict {
+                tx_id: 0,
+                blocking_tx,
+                table: table.to_string(),
+                row_id: 0,
+            });
+        }
+
         // Drop from RelationalSlab
         let _ = self.slab().drop_table(table); // Ignore error if table doesn't exist in slab
 
